@@ -23,6 +23,10 @@ struct Mutant {
     class: String,
     text: String,
 }
+/// mutation classes whose refusal lives in the driver (not in the assembler): always run through the binary
+fn driver_level(class: &str) -> bool {
+    class.starts_with("jump-undefined") || class.starts_with("no-start") || class.starts_with("label-definition-dropped") || class.starts_with("jump-retargeted-to-undefined")
+}
 
 fn insert_line(lines: &[String], at: usize, l: &str) -> String {
     let mut v: Vec<String> = lines.to_vec();
@@ -219,6 +223,17 @@ fn mutants(rng: &mut Rng, par: &Parent) -> Vec<Mutant> {
             v.push(Mutant { class: format!("constant:{}:{}", pos, which), text: insert_line(&par.lines, 0, &l) + "\n" });
         }
     }
+    // one macro use carrying two forward jumps, one of them to a label that is never defined (both name orders)
+    for (a, b, defined) in [("aaa_fwd", "zzz_undef", "aaa_fwd"), ("aaa_undef", "zzz_fwd", "zzz_fwd"), ("mmm_undef", "mmm_undef2", "")] {
+        let at = code_at(rng);
+        let mut l: Vec<String> = par.lines.clone();
+        l.insert(at.min(l.len()), format!("mj2({}, {})", a, b));
+        l.insert(at.min(l.len()), format!("macro mj2(p,q) -> {} p {} q <-", rng.pick(&["jmp", "je", "loop"]), rng.pick(&["jmp", "jne", "jcxz"])));
+        if !defined.is_empty() {
+            l.push(format!("{}:", defined));
+        }
+        v.push(Mutant { class: "jump-undefined:two-jumps-in-one-macro-use".into(), text: l.join("\n") + "\n" });
+    }
     // duplicate data label / procedure
     v.push(Mutant { class: "duplicate-data-label".into(), text: insert_line(&par.lines, 0, "bv0: db 9") + "\n" });
     v.push(Mutant { class: "duplicate-data-label".into(), text: insert_line(&par.lines, 0, "wv2: db 9") + "\n" });
@@ -299,6 +314,17 @@ fn retarget_first_jump(items: &mut Vec<Item>, to: &str) -> bool {
         }
     }
     false
+}
+
+/// single-defect programs for other monitors (C10 runs them through the binary: refused, or run without reaching an
+/// 'Internal Error' path)
+pub fn sample_mutants(rng: &mut Rng) -> Vec<(String, String)> {
+    let par = loop {
+        if let Some(p) = make_parent(rng) {
+            break p;
+        }
+    };
+    mutants(rng, &par).into_iter().map(|m| (m.class, m.text)).collect()
 }
 
 fn judge(rep: &Report, m: &Mutant, core: Option<String>, cli: bool) {
@@ -415,7 +441,7 @@ pub fn run(rep: &Report) {
         rep.count("valid parents", 1);
         let ms = mutants(&mut rng, &par);
         for (k, m) in ms.iter().enumerate() {
-            let cli = (k + i) % (if t { 12 } else { 8 }) == 0;
+            let cli = driver_level(&m.class) || (k + i) % (if t { 12 } else { 8 }) == 0;
             judge(rep, m, if core { Some(format!("p{}m{}", i, k)) } else { None }, cli);
         }
         if i == 0 {
@@ -427,4 +453,4 @@ pub fn run(rep: &Report) {
     rep.floor("mutants run through the binary", rep.counter("mutants run through the binary"), 300);
 }
 
-pub const RULE: &str = "valid parents (random well-formed programs of all instruction classes and structured programs; each is first checked to be accepted) receive one defect each: a defective instruction line inserted at a random position of the code (top level or inside a procedure) from 46 templates - jump to an undefined / data label (14 jump spellings), call of a code label / data label / unknown name, byte/word data operand or OFFSET naming a code label or an unknown name, mixed operand widths (7 shapes x 10 mnemonics), two memory operands (5 shapes), unsupported instructions (in/out/lds/les/wait/esc/lock/into/iret), interrupt numbers other than 3/10h/21h in three radices, unsupported directives, duplicate code labels, a code label redefining a data label; duplicate data labels and procedures; every constant position (imm8/imm16 to register, memory, label; logic immediates; displacements of all addressing shapes; direct addresses; shift counts; SET; DB/DW values, fill values and array sizes) pushed one past the upper end, one past the lower end, and far outside in decimal/hex/binary; constants written as OFFSET of a data label placed at offsets 256..65535 in ten 8-bit positions; 'start' removed, spelled 'Start', or made a data label; at AST level the definition of a referenced label dropped and a jump retargeted to a data label / undefined name. Oracle: in process Preprocessor::parse is Err with a non-empty message or the replicated driver checks refuse; through the binary (every 8th mutant) there are zero hook records, non-empty output and a clean exit. Distinct = mutation class (incl. position).";
+pub const RULE: &str = "valid parents (random well-formed programs of all instruction classes and structured programs; each is first checked to be accepted) receive one defect each: a defective instruction line inserted at a random position of the code (top level or inside a procedure) from 46 templates - jump to an undefined / data label (14 jump spellings), call of a code label / data label / unknown name, byte/word data operand or OFFSET naming a code label or an unknown name, mixed operand widths (7 shapes x 10 mnemonics), two memory operands (5 shapes), unsupported instructions (in/out/lds/les/wait/esc/lock/into/iret), interrupt numbers other than 3/10h/21h in three radices, unsupported directives, duplicate code labels, a code label redefining a data label; a macro use carrying two forward jumps of which one target is never defined; duplicate data labels and procedures; every constant position (imm8/imm16 to register, memory, label; logic immediates; displacements of all addressing shapes; direct addresses; shift counts; SET; DB/DW values, fill values and array sizes) pushed one past the upper end, one past the lower end, and far outside in decimal/hex/binary; constants written as OFFSET of a data label placed at offsets 256..65535 in ten 8-bit positions; 'start' removed, spelled 'Start', or made a data label; at AST level the definition of a referenced label dropped and a jump retargeted to a data label / undefined name. Oracle: in process Preprocessor::parse is Err with a non-empty message or the replicated driver checks refuse; through the binary (every 8th mutant, and every mutant whose refusal is the driver's job: undefined labels, missing start) there are zero hook records, non-empty output and a clean exit. Distinct = mutation class (incl. position).";
